@@ -163,6 +163,7 @@ let () = if c05 then iter_lines run_c05 else iter_lines (fun line ->
     let obs = List.map obs_str (spec_run_ops strict m ops) in
     let obs = match exp with
       | None -> obs
+      | Some "valid" -> obs   (* marks a message that is spec-valid by construction, without a tree *)
       | Some x ->
         (* d:p:f=<tree the encoder started from>: print the decoded root tree under these caps *)
         let caps = List.hd (String.split_on_char '=' x) in
